@@ -87,6 +87,7 @@ class Sys:
         ins(r'^<S as StreamExt>::next$|^<T as StreamExt>::next$', self.m_user_stream_next)
         ins(r'^tokio::time::sleep$', self.m_tokio_sleep)
         ins(r'^<[MT] as Clone>::clone$', self.m_msg_clone)
+        M.append((R(r'^<[A-Z]\w* as Clone>::clone$'), self.m_generic_clone))
         ins(r'^HashMap::<.*>::values$', self.m_map_values)
         ins(r'^<std::iter::FilterMap<.*> as Iterator>::collect::<Vec<', self.m_collect_vec)
         ins(r'^<&Vec<.*> as IntoIterator>::into_iter$', self.m_slice_iter)
@@ -129,8 +130,61 @@ class Sys:
         except Unsupported:
             return None
 
+    def _receiver_value(self, e, st, v):
+        """the value behind a chain of references / Box / Pin / Arc (the receiver of a dyn or generic method call)"""
+        for _ in range(8):
+            if isinstance(v, VRef):
+                try:
+                    v = _load(e, st, v)
+                except Unsupported:
+                    return None
+            elif isinstance(v, VAgg) and v.name in ('Box', 'Pin') and ('f', 0) in v.fields:
+                v = v.fields[('f', 0)]
+            elif is_h(v, 'Arc'):
+                v = _load(e, st, VRef(('obj', v.extra['oid']), (('f', 0),), False))
+            else:
+                break
+        return v
+
     def m_inline_hannibal(self, e, st, fr, t, args):
-        fn = self.resolver.resolve(t.func) if t.func else None
+        fn = None
+        dm = re.match(r'^<(dyn .*|[A-Z]\w*) as (.*)>::(\w+)(::<.*>)?$', t.func or '', re.S)
+        if dm and args:
+            # dynamic (`dyn Trait`) or generic (`H: Trait`) dispatch: the concrete type decides - of the receiver value
+            # if it is a named struct, else of the generic binding known for this frame
+            recv = self._receiver_value(e, st, args[0])
+            cands = []
+            is_dyn = dm.group(1).startswith('dyn ')
+            if is_dyn and isinstance(recv, VAgg) and re.fullmatch(r'[A-Z]\w*', recv.name or '') and recv.name not in ('Box', 'Pin', 'Option', 'Result', 'Vec', 'HashMap', 'Poll'):
+                cands.append(recv.name)
+            if not is_dyn and fr.tsub and fr.tsub.get(dm.group(1)):
+                cands.append(fr.tsub[dm.group(1)])
+            elif not is_dyn and isinstance(recv, VAgg) and recv.name:
+                # no binding known: the receiver value itself tells the type (a struct, or a modelled handle kind)
+                nm = recv.name.split('::')[-1]
+                if re.fullmatch(r'[A-Z]\w*', nm) and nm not in ('Box', 'Pin', 'Option', 'Result', 'Vec', 'HashMap', 'Poll'):
+                    cands.append(nm)
+            for ty in cands:
+                tyb = re.sub(r'<.*$', '', ty.strip())
+                try:
+                    fn = self.resolver.resolve(f"<{tyb}<_> as {dm.group(2)}>::{dm.group(3)}")
+                except Unsupported:
+                    fn = None
+                if fn is not None:
+                    info = self.resolver.impl_of(fn)
+                    from resolver import base_name
+                    if info is not None and base_name(info.selfty) == tyb:
+                        break
+                    fn = None
+            if fn is None and cands and is_dyn and isinstance(recv, VAgg) and recv.name == cands[0]:
+                raise Unsupported(f"dynamic dispatch of {dm.group(2)}::{dm.group(3)} on a {recv.name}: no impl found")
+        if fn is None:
+            fn = self.resolver.resolve(t.func) if t.func else None
+        if fn is None and t.func and fr.tsub:
+            # a path written in terms of this frame's generic parameters (`<H as HandleFate<A>>::settle`)
+            t2 = self.subst_type(fr, t.func)
+            if t2 != t.func:
+                fn = self.resolver.resolve(t2)
         if fn is None:
             return NotImplemented
         if fn.nargs != len(args):
@@ -265,6 +319,15 @@ class Sys:
         if isinstance(v, VAgg) and v.name in ('Sender', 'sender::Sender'):
             return v
         raise Unsupported(f"Into<Sender> for {v!r}")
+
+    def m_generic_clone(self, e, st, fr, t, args):
+        """<S as Clone>::clone through a generic parameter: decided by the value (a modelled handle)"""
+        v = deref_arg(e, st, args[0])
+        if is_h(v, 'mpsc::Sender') or is_h(v, 'mpsc::UnboundedSender'):
+            return S.m_sender_clone(e, st, fr, t, args)
+        if is_h(v, 'Arc') or is_h(v, 'Weak') or is_h(v, 'Shared'):
+            return self.clone_value(st, v)
+        return NotImplemented
 
     def m_msg_clone(self, e, st, fr, t, args):
         """<M as Clone>::clone of a scripted message: each clone is a distinct delivery (interval ticks)"""
